@@ -4,6 +4,7 @@ import (
 	"fmt"
 	"sort"
 	"strings"
+	"unicode"
 
 	"verifharness/internal/hx"
 )
@@ -11,6 +12,9 @@ import (
 func generate() {
 	r := run.R
 	do("wf", false)
+
+	// ---- the real start-up path in a fresh process: initgin.InitAllConfig, then what it left in BBSNAME_BIG5 --------
+	genStarts(r)
 
 	// ---- exhaustive: every string of length 0, 1, 2 through both converters (smallest first) ----------
 	do("b2u -", true)
@@ -384,5 +388,56 @@ func generateLoader() {
 				do(c, true)
 			}
 		}
+	}
+}
+
+// genStarts: site names over the real tables (the compiled-in name first), over small synthetic tables, and the
+// error path (a table that cannot be read).
+func genStarts(r *hx.Rand) {
+	var good []int // code points with a real (non-replacement) Big5 image
+	for cp, b := range ref.u2b {
+		if b != 0xFFFD && cp >= 0x80 && !unicode.IsSpace(cp) && !(cp >= 0xD800 && cp <= 0xDFFF) && unicode.IsPrint(cp) {
+			good = append(good, int(cp))
+		}
+	}
+	sort.Ints(good)
+	alnum := []byte("ABCXYZabcxyz0189")
+	mkName := func(pool []int, n int) []byte {
+		var s []byte
+		for i := 0; i < n; i++ {
+			if len(pool) == 0 || r.Intn(4) == 0 {
+				s = append(s, r.Pick(alnum))
+			} else {
+				s = append(s, encGen(pool[r.Intn(len(pool))])...)
+			}
+		}
+		return s
+	}
+	do("start Rb Ru "+hx.Hex([]byte("新批踢踢")), true)
+	do("start Rb Ru "+hx.Hex([]byte("PTT")), true)
+	nReal, nSyn := 6, 24
+	if run.Thorough() {
+		nReal, nSyn = 40, 300
+	}
+	for i := 0; i < nReal && len(good) > 0; i++ {
+		do("start Rb Ru "+hx.Hex(mkName(good, 1+r.Intn(6))), true)
+	}
+	do("start Rb X "+hx.Hex([]byte("新批踢踢")), true)
+	do("start X Ru "+hx.Hex([]byte("PTT")), true)
+	for i := 0; i < nSyn; i++ {
+		eol := []string{"\n", "\r\n"}[r.Intn(2)]
+		var tb, tu strings.Builder
+		tb.WriteString("# big5 unicode" + eol)
+		tu.WriteString("# big5 unicode" + eol)
+		var pool []int
+		for k := 0; k < 2+r.Intn(6); k++ {
+			cp := good[r.Intn(len(good))]
+			big5 := 0x8140 + r.Intn(0x7E00)
+			fmt.Fprintf(&tb, "0x%04X 0x%04X%s", big5, cp, eol)
+			fmt.Fprintf(&tu, "0x%04X 0x%04X%s", big5, cp, eol)
+			pool = append(pool, cp)
+		}
+		pool = append(pool, good[r.Intn(len(good))]) // most likely without a row: replacement code
+		do(fmt.Sprintf("start S%s S%s %s", hx.Hex([]byte(tb.String())), hx.Hex([]byte(tu.String())), hx.Hex(mkName(pool, 1+r.Intn(6)))), true)
 	}
 }
